@@ -16,6 +16,8 @@ DEFECTS = {
     "utf8": "asn1_utf8char_from_bytes tests `(in[i] & 0x60) != 0x80`, which is always true: every multi-byte UTF-8 character is refused",
     "hex_odd": "hex2bin/hex_to_bytes print the length-delimited input with %s when the length is odd: read past the end of the buffer (no NUL)",
     "b64_ws": "base64_decode_block evaluates conv_ascii2bin(*f) before testing n > 0: an all-white-space (or empty) input is read one byte past its end",
+    "digest_ret": "x509_digest_algor_from_der returns `ret` (= 1) from its error branch: a known digest OID followed by more content (e.g. NULL) is answered 1 with *oid = OID_undef, an empty SEQUENCE is answered 0 after being consumed",
+    "dp_uri": "x509_uri_as_distribution_point(_name)_from_der leaves *uri/*urilen untouched (nameRelativeToCRLIssuer, absent distributionPoint); x509_uri_as_distribution_points_from_der and x509_crl_new_from_cert then read the caller's uninitialised pointer",
     "multiple": "several of the listed defects at once",
 }
 
@@ -73,6 +75,62 @@ def mutate(r, b, n=1):
         else:
             b[i] = r.choice([0, 0x7f, 0x80, 0x81, 0x82, 0x84, 0xff])
     return bytes(b)
+
+
+CONSTRUCTED = (0x30, 0x31) + tuple(range(0xa0, 0xa8))
+
+
+def tlv_spans(b, off=0, end=None, depth=0, out=None):
+    """(position of the first length octet, header size, content length) of every well-formed TLV, recursively"""
+    if out is None:
+        out = []
+    end = len(b) if end is None else end
+    i = off
+    while i + 2 <= end and depth < 8:
+        tag = b[i]
+        l0 = b[i + 1]
+        if l0 < 0x80:
+            n, hdr = l0, 2
+        else:
+            k = l0 & 0x7f
+            if k == 0 or k > 3 or i + 2 + k > end:
+                break
+            n, hdr = int.from_bytes(b[i + 2:i + 2 + k], "big"), 2 + k
+        if i + hdr + n > end:
+            break
+        out.append((i + 1, hdr, n))
+        if tag in CONSTRUCTED:
+            tlv_spans(b, i + hdr, i + hdr + n, depth + 1, out)
+        elif tag in (3, 4) and n > 2:      # BIT/OCTET STRING wrapping DER (extensions, keys)
+            inner = i + hdr + (1 if tag == 3 else 0)
+            if b[inner] in (0x30, 0x04, 0x03, 0x02):
+                tlv_spans(b, inner, i + hdr + n, depth + 1, out)
+        i += hdr + n
+    return out
+
+
+def structured_mutations(r, b, budget):
+    """truncations, length-octet edits at every TLV, tag edits, byte noise"""
+    out = []
+    n = len(b)
+    step = max(1, n // max(1, budget // 4))
+    for cut in range(0, n, step):
+        out.append(("truncate", b[:cut]))
+    spans = tlv_spans(b)
+    r.shuffle(spans)
+    for (pos, hdr, ln) in spans[:max(1, budget // 8)]:
+        for v in (b[pos] - 1, b[pos] + 1, 0, 0x7f, 0x80, 0x81, 0x82, 0x84, 0xff):
+            m = bytearray(b)
+            m[pos] = v & 255
+            out.append(("length-octet", bytes(m)))
+        m = bytearray(b)
+        m[pos - 1] = r.choice([0x30, 0x31, 0x02, 0x03, 0x04, 0x05, 0x06, 0x0c, 0x13, 0x17, 0x18, 0xa0, 0xa3, 0x80, 0x00, 0xff])
+        out.append(("tag", bytes(m)))
+        # grow / shrink the content with consistent outer lengths broken
+        out.append(("insert", b[:pos + hdr - 1] + r.bytes(r.range(1, 3)) + b[pos + hdr - 1:]))
+    for _ in range(budget // 3):
+        out.append(("noise", mutate(r, b, r.range(1, 3))))
+    return out
 
 
 def compare(ctx, cases, impl, model, variant, impl_err="", out_of_scope=()):
@@ -196,6 +254,15 @@ def scan_strings(b, depth=0):
             out += scan_strings(body[1:], depth + 1)
         i += hdr + n
     return out
+
+
+def pt_hints(der):
+    """P= hint token only (public points): for objects that hold no private scalar"""
+    ps = {}
+    for tag, body in scan_strings(der):
+        if tag == 3 and len(body) == 66 and body[0] == 0:
+            ps[body[1:].hex()] = "1" if sm2_octets_ok(body[1:]) else "0"
+    return (" P=" + ",".join("%s:%s" % kv for kv in ps.items())) if ps else ""
 
 
 def key_hints(der):
